@@ -50,7 +50,14 @@ func compareBatch(e *hx.Env, ts []*plugin.Transcript) ([]*hx.Disagreement, error
 	for _, t := range ts {
 		lines = append(lines, t.Lines...)
 	}
-	out, err := e.RunDriver("plugin", lines)
+	var out []string
+	var err error
+	for try := 0; try < 4; try++ { // the driver binary may be re-linked by a concurrent build: retry
+		if out, err = e.RunDriver("plugin", lines); err == nil {
+			break
+		}
+		time.Sleep(time.Duration(try+1) * time.Second)
+	}
 	if err != nil {
 		return nil, err
 	}
@@ -426,6 +433,17 @@ func runFile(col *collector, path string, isCorpus bool) {
 
 // Run is the body of harness/cmd/c06.
 func Run(e *hx.Env) *hx.Report {
+	// work on a private copy of the model driver: a long run must not depend on the build directory staying untouched
+	if tmp, err := os.MkdirTemp("", "gxdrv-c06-"); err == nil {
+		defer os.RemoveAll(tmp)
+		if b, err := os.ReadFile(filepath.Join(e.Driver, "gxdrv_plugin")); err == nil {
+			if os.WriteFile(filepath.Join(tmp, "gxdrv_plugin"), b, 0o755) == nil {
+				e2 := *e
+				e2.Driver = tmp
+				e = &e2
+			}
+		}
+	}
 	r := hx.NewReport(prop, e.Tier, e.Seed, Rule)
 	col := &collector{e: e, r: r, shrunk: map[string]bool{}}
 	if e.Replay != "" {
